@@ -335,6 +335,11 @@ func (m *Manager) AddValidatedV2Blocks(blocks []types.Block, states []consensus.
 	for i := range blocks {
 		if blocks[i].V2 == nil {
 			return errors.New("only v2 blocks can be pre-validated")
+		} else if bcs, ok := m.store.State(blocks[i].ID()); ok && m.onBestChain(bcs.Index) {
+			// already applied; if its body has been pruned, storing it again
+			// would make MinReorgIndex report a fork point below a tip that
+			// can no longer be reverted
+			continue
 		}
 		m.store.AddBlock(blocks[i], &consensus.V1BlockSupplement{})
 		m.store.AddState(states[i])
